@@ -22,23 +22,29 @@ func init() {
 		ID:    "C19",
 		Level: "fault_enumeration",
 		Rule: "plaintexts of length {0,1,15,16,17,64,1024 (+65536 thorough)}, text and binary, under random 32-byte keys, added through delegation / invocation options and meta.AddEncrypted: right-key read-back before and after seal/unseal in DAG-CBOR and DAG-JSON (typed and generic decoders); fault enumeration over the stored ciphertext: EVERY single-bit flip (nonce, MAC, body; exhaustive up to 1 KiB plaintexts, first/last 128 bytes + 2000 random bits for 64 KiB) and EVERY truncation length must make the read fail; a second random key must fail; plaintext must not occur in the stored value nor in the sealed bytes; two encryptions of the same value differ and all 24-byte nonces of the run are pairwise distinct; nil / every length 0..64 except 32 / all-zero keys refused by add and get; fault injection on the entropy source (crypto/rand.Reader failing at once / after 5 / after 23 bytes): two encryptions of the same value must not come out identical. " +
+			"Purity (also in a -race build): a sample of these calls on shared objects is repeated in reverse / shuffled order and from 16..32 goroutines at once; every outcome must equal the first one and the race detector must stay silent. " +
 			"non-trivial = tamper case on a ciphertext of a non-empty plaintext; distinct = (plaintext length, kind, tamper position).",
 		Assumptions: []string{
 			"'confidential' is restated as its observable consequences (plaintext absent, fresh nonces, authentication failure on every single-bit change); no cryptanalytic claim",
 		},
-		Exhaustive:  true,
-		Shards:      shards(8, 16),
-		Run:         runC19,
-		MinEvals:    floor(20000, 250000),
-		MinDistinct: floor(15000, 200000),
+		Exhaustive:      true,
+		Shards:          shards(8, 16),
+		RaceShards:      shards(1, 2),
+		RaceIsViolation: true,
+		Run:             runC19,
+		MinEvals:        floor(20000, 250000),
+		MinDistinct:     floor(15000, 200000),
 		RequiredCells: func(string) []string {
-			return []string{"roundtrip/constructed", "roundtrip/dagcbor", "roundtrip/dagjson", "roundtrip/delegation", "roundtrip/invocation", "roundtrip/string", "roundtrip/bytes",
+			return []string{"purity/encrypted-meta/history", "purity/encrypted-meta/concurrent", "roundtrip/constructed", "roundtrip/dagcbor", "roundtrip/dagjson", "roundtrip/delegation", "roundtrip/invocation", "roundtrip/string", "roundtrip/bytes",
 				"tamper/bitflip-nonce", "tamper/bitflip-mac", "tamper/bitflip-body", "tamper/truncate", "wrong-key", "plaintext-absent", "fresh-nonce", "entropy-fault", "never-encrypted", "badkey/derived-from-right-key", "badkey/nil", "badkey/size", "badkey/zero", "len=0", "len=1024"}
 		},
 	})
 }
 
 func runC19(w *mon.W) {
+	if purityGate(w, c19Purity) {
+		return
+	}
 	r := w.Rng
 	lens := []int{0, 1, 15, 16, 17, 64, 1024}
 	if w.Thorough() {
